@@ -303,11 +303,13 @@ func (p *poller) modify(fd int, event Event) error {
 }
 
 func (p *poller) Del(slot *Slot) error {
+	// Remove both interests even if the kernel refuses one of the calls (descriptor closed underneath): neither
+	// direction may stay counted as pending. The first error is reported.
 	err := p.DelRead(slot)
-	if err == nil {
-		return p.DelWrite(slot)
+	if werr := p.DelWrite(slot); err == nil {
+		err = werr
 	}
-	return nil
+	return err
 }
 
 func (p *poller) DelRead(slot *Slot) error {
